@@ -175,7 +175,9 @@ func formatOffset(position int64) eventbus.Offset {
 func (s *SQLiteStore) Append(ctx context.Context, event *eventbus.Event) (eventbus.Offset, error) {
 	start := time.Now()
 
-	result, err := s.appendStmt.ExecContext(ctx, event.Type, event.Data, event.Timestamp)
+	// Store the instant in UTC: the driver writes time.Time as text and cannot
+	// read back timestamps in arbitrary fixed zones
+	result, err := s.appendStmt.ExecContext(ctx, event.Type, event.Data, event.Timestamp.UTC())
 	if err != nil {
 		if s.metricsHook != nil {
 			s.metricsHook.OnAppend(time.Since(start), err)
